@@ -244,6 +244,13 @@ T("C13", "twin-metacopy-explicit", MPS, """            mps = self.copy()
             if self.evolve_config.ivp_solver != "krylov":
                 coef = 1j
 
+        # the sweep starts at the site `to_right` points away from and treats it as the
+        # canonical center. The flags alone do not guarantee that (e.g. a sum of two states)
+        if mps.to_right:
+            mps.ensure_right_canonical()
+        else:
+            mps.ensure_left_canonical()
+
         # construct the environment matrix
         # almost half is not used. Not a big deal.
         environ = Environ(mps, mpo)
@@ -263,6 +270,13 @@ T("C13", "twin-metacopy-explicit", MPS, """            mps = self.copy()
             mps = self.to_complex()
             if self.evolve_config.ivp_solver != "krylov":
                 coef = 1j
+
+        # the sweep starts at the site `to_right` points away from and treats it as the
+        # canonical center. The flags alone do not guarantee that (e.g. a sum of two states)
+        if mps.to_right:
+            mps.ensure_right_canonical()
+        else:
+            mps.ensure_left_canonical()
 
         # construct the environment matrix
         # almost half is not used. Not a big deal.
@@ -449,6 +463,34 @@ M("C06", "canonicalise-switch-always", "renormalizer/mps/mp.py", "        if (no
   "direction switched after partial sweeps too")
 M("C02", "graph-cover-le", "renormalizer/mps/symbolic_mpo.py", "    if non_red.shape[0] < non_red.shape[1]:\n        for i in range(non_red.shape[0]):", "    if non_red.shape[0] <= non_red.shape[1]:\n        for i in range(non_red.shape[0]):", ["terminal-cover"],
   "square tables covered from the row side: a 1 x 1 root table keeps its coefficient in the discarded vector")
+
+# ------------------------------------------------------------------------------------------------ wave 10
+_BASF = "renormalizer/model/basis.py"
+T("C16", "twin-sinedvr-identity-early-return-balanced", _BASF, "        if op_symbol == \"I\":\n            mat = np.eye(self.nbas)\n\n        elif op_symbol == \"x\":\n            # legacy for check",
+  "        if op_symbol == \"I\":\n            self._recursion_flag -= 1\n            return np.eye(self.nbas) * op_factor\n\n        elif op_symbol == \"x\":\n            # legacy for check",
+  "identity returned early after lowering the recursion counter")
+M("C16", "sho-counter-early-return", _BASF, "        self._recursion_flag += 1\n\n        # prevent side effect of split(\" \")", "        self._recursion_flag += 1\n        if op_symbol == \"I\":\n            return np.eye(self.nbas) * op_factor\n\n        # prevent side effect of split(\" \")", ["counter-balance"],
+  "BasisSHO.op_mat: identity shortcut leaves the counter raised")
+_OPF2 = "renormalizer/model/op.py"
+M("C15", "op-mul-drops-numpy-unwrap", _OPF2, "        if isinstance(other, np.generic):\n            other = other.item()\n        if isinstance(other, Op):", "        if isinstance(other, Op):", ["operand-order"],
+  "Op.__mul__ no longer unwraps numpy scalars: TypeError for np.int64 * Op")
+M("C15", "opsum-truediv-python-only", _OPF2, "        assert isinstance(other, (int, float, complex, np.generic))", "        assert isinstance(other, (int, float, complex))", ["operand-order"], "OpSum / numpy scalar rejected")
+_CFGF = "renormalizer/utils/configs.py"
+M("C05", "config-copy-shares-max-dims", _CFGF, "        if self.max_dims is not None:\n            new.max_dims = self.max_dims.copy()\n        return new", "        return new", ["config-copy"],
+  "per-bond limit array shared between a state and its copies (set_bonddim of one rewrites the other's limits)")
+_RKF = "renormalizer/utils/rk.py"
+M("C19", "ti-table-off-by-one", _RKF, "            table[istage + 1, 2:] = a[istage, :].dot(table[1:, 1:])[:-1]", "            table[istage + 1, 2:] = a[istage, :].dot(table[1:, 1:])[1:]", ["ti-expansion"], "recursion of the expansion table shifted by one power")
+T("C19", "twin-ti-no-1d-branch", _RKF, "        if b.ndim == 1:\n            # before RK4\n            coeff = np.zeros(Nstage + 1)\n            coeff[0] = 1.0\n            coeff[1:] = b.dot(table[1:, 1:])\n        else:\n            # after RK4\n            coeff = np.zeros((b.shape[0], Nstage + 1))\n            coeff[:, 0] = 1.0\n            coeff[:, 1:] = b.dot(table[1:, 1:])",
+  "        coeff = np.zeros((b.shape[0], Nstage + 1))\n        coeff[:, 0] = 1.0\n        coeff[:, 1:] = b.dot(table[1:, 1:])", "dead one-dimensional branch removed")
+_THF = "renormalizer/mps/thermalprop.py"
+T("C10", "twin-thermal-exact-scale-shift", _THF, "        MPOprop = Mpo.exact_propagator(\n            self.h_mpo.model, evolve_dt.imag, space=self.space, shift=-self.energies[-1]\n        )",
+  "        MPOprop = Mpo.exact_propagator(self.h_mpo.model, evolve_dt.imag, space=self.space).scale(np.exp(-self.energies[-1] * evolve_dt.imag))",
+  "energy shift applied as a scalar factor of a propagator rebuilt at every call")
+M("C10", "thermal-exact-first-energy", _THF, "self.h_mpo.model, evolve_dt.imag, space=self.space, shift=-self.energies[-1]", "self.h_mpo.model, evolve_dt.imag, space=self.space, shift=-self.energies[0]", ["thermal-"],
+  "shift taken from the first instead of the latest energy")
+_MPF = "renormalizer/mps/mp.py"
+M("C13", "scale-in-place-buffer", _MPF, "        new_mp[self.qnidx] = new_mp[self.qnidx] * val\n        return new_mp", "        new_mp[self.qnidx].array *= val\n        return new_mp", ["buffer-immutable"],
+  "gauge-centre tensor rescaled inside its buffer (shared with conj() of a real object)")
 
 _FIX_EXPECT = {1: ("C03", ["qn-align"]), 2: ("C03", ["qn-charge"]), 3: ("C10", ["evolve"]), 4: ("C13", ["effect-bound", "TTNS.evolve"]), 5: ("C13", ["compressed_sum"]),
                6: ("C15", ["array-truth"]), 7: ("C16", ["sho-product"]), 8: ("C16", ["copy-forward"]), 9: ("C14", ["crash-points"]), 10: ("C09", ["krylov-hermitian"]),
